@@ -104,6 +104,18 @@ PROPS["C19"] = {
     "level_note": "std::sync::Mutex idealised (mutual exclusion; guard released at end of scope: temporaries at the end of the statement, `let` guards at the end of the block); tools/gen_locks.py (a small tokenizer, fail-closed) trusted",
 }
 
+# specification oracles evaluated on the dumps of every history campaign, and the properties they speak for
+DUMP_ORACLES = {
+    "refreshed-key-holds-removed-secret": {"C05"},
+    "refreshed-key-misses-newest-secret": {"C04"},
+    "failed-call-modified-key": {"C10"},
+}
+
+
+def oracle_applies(prop, oracle):
+    return oracle not in DUMP_ORACLES or prop in DUMP_ORACLES[oracle]
+
+
 # operations whose ok/err status or outcome is what the property talks about
 BEHAVIOUR_KINDS = {"behaviour", "status", "panic"}
 
